@@ -42,6 +42,7 @@ struct Frame {  // a DNS message the library transmitted
   int         rd = 0, cd = 0;
   std::string cookie;  // raw cookie option bytes (client 8 + server 0..32)
   std::string bytes;
+  size_t      mlen = 0;     // length of the message when written again (what one message of this content occupies)
   int         replied = 0;  // number of replies the environment built from this frame
 };
 
@@ -75,6 +76,7 @@ extern int  g_srcip;     // last octet of the local address reported by getsockn
 extern bool g_tfo_ok;    // setsockopt(TFO) succeeds
 extern int  g_chunk;     // default TCP read chunk size (0 = everything)
 extern std::vector<int> g_wscript_default;  // write acceptance script given to every new TCP socket
+extern std::vector<int> g_wscript_default_udp;
 extern long g_io_events; // number of send/recv calls so far
 extern int  g_nservers;
 void vsock_install(ares_channel_t *ch);
